@@ -46,6 +46,16 @@ LEVEL = "model_checking"
 
 CH, SH, CR = PacketType.CLIENT_HELLO.value, PacketType.SERVER_HELLO.value, PacketType.CHALLENGE_RESP.value
 
+import os as _os
+try:
+    _SEED = int(_os.environ.get("VERIF_SEED", "0") or 0)
+except ValueError:
+    _SEED = 0
+# VERIF_SEED rotates the fixture key pairs (root key and ephemeral pool position); it never selects which cases run
+ROOT = _SEED % 6
+KOFF = 6 + (_SEED % 5)          # ephemeral keys of the session under attack: fixture keys KOFF, KOFF+1
+KOFF_OTHER = 12 + (_SEED % 5)   # another honest session of the same server
+
 
 def crc_fix(d):
     body = d[:-4]
@@ -194,7 +204,9 @@ def handshake_datagrams(w):
 # ---------------------------------------------------------------------------
 # part 1 + 2: single substitution of one handshake datagram
 
-def honest_capture(root_index=0, key_offset=1, rnd_seed=0):
+def honest_capture(root_index=None, key_offset=None, rnd_seed=0):
+    root_index = ROOT if root_index is None else root_index
+    key_offset = KOFF if key_offset is None else key_offset
     """one honest handshake; returns the three datagrams and the session facts"""
     w = World(root_index=root_index, key_offset=key_offset, rnd_seed=rnd_seed)
     try:
@@ -210,7 +222,9 @@ def honest_capture(root_index=0, key_offset=1, rnd_seed=0):
         w.close()
 
 
-def run_substitution(which, make, root_index=0, key_offset=1):
+def run_substitution(which, make, root_index=None, key_offset=None):
+    root_index = ROOT if root_index is None else root_index
+    key_offset = KOFF if key_offset is None else key_offset
     """fresh handshake in which the datagram of type ``which`` is replaced by make(genuine bytes) (bytes or None=drop)"""
     mon = HandshakeMonitor()
     w = World(root_index=root_index, key_offset=key_offset, monitors=[mon])
@@ -288,7 +302,7 @@ def forgeries():
     """(label, which, builder(genuine, ctx) -> bytes).  ctx has the attacker's material and another honest session."""
     keys = seams.fixture_keys()
     att_root, att_eph = keys[20], keys[21]
-    other = honest_capture(root_index=0, key_offset=7, rnd_seed=3)          # another session of the SAME server
+    other = honest_capture(root_index=ROOT, key_offset=KOFF_OTHER, rnd_seed=3)          # another session of the SAME server
     other_sh = parse_server_hello(other["SH"])
     out = []
 
@@ -401,7 +415,7 @@ def forgery_work(arg):
         for vi in range(8):
             total += 1
             mon = HandshakeMonitor()
-            w = World(root_index=0, key_offset=1, monitors=[mon])
+            w = World(root_index=ROOT, key_offset=KOFF, monitors=[mon])
             try:
                 label = None
                 for _ in range(14):
@@ -434,9 +448,9 @@ def post_handshake_work(arg):
     """handshake-typed datagrams injected AFTER both ends agreed on a key: neither end may change key or token"""
     viols = {}
     total = 0
-    other = honest_capture(root_index=0, key_offset=7, rnd_seed=3)
+    other = honest_capture(root_index=ROOT, key_offset=KOFF_OTHER, rnd_seed=3)
     mon = HandshakeMonitor()
-    w = World(root_index=0, key_offset=1, monitors=[mon])
+    w = World(root_index=ROOT, key_offset=KOFF, monitors=[mon])
     try:
         w.run_until_connected()
         w.run(3)
@@ -487,7 +501,7 @@ def post_handshake_work(arg):
 def scenario(params, ch):
     n_clients, cross, order, latency = params
     mon = HandshakeMonitor()
-    w = World(n_clients=n_clients, root_index=0, key_offset=1, order=order, latency=latency, chooser=ch, monitors=[mon],
+    w = World(n_clients=n_clients, root_index=ROOT, key_offset=KOFF, order=order, latency=latency, chooser=ch, monitors=[mon],
               fates=["drop", "dup", "delay2", "delay8"])
     try:
         # the hellos emitted inside World() were emitted before fates could be asked? no: fates are set in the constructor
